@@ -15,9 +15,9 @@ CONFIG = {
                    "verify, diff and create each run on their own copy of the world. The expected exit code and the exact "
                    "sets of paths reported as mismatching / missing / new are derived from the difference between the sealed "
                    "disk image and the mutated one (snapshots), never from the tool's output or the op list."),
-    "level_note": ("Faults never touch ascmhl folders (C05's domain). When no recorded file is left on disk only 'non-zero' is "
-                   "demanded of verify. diff is not judged on content changes; where the statement gives two admissible codes "
-                   "(diff with additions and removals) both are accepted."),
+    "level_note": ("Faults never touch ascmhl folders (C05's domain). diff is not judged on content changes; where the statement "
+                   "gives two admissible codes (diff with additions and removals) both are accepted; reported names are "
+                   "compared modulo surrounding blanks because the log format separates fields by runs of blanks."),
     "technique": "deterministic simulation: seeded histories + fault sets; exit-code and reported-path oracle from snapshot differences",
     "quick": {"runs": 960, "budget_s": 90},
     "thorough": {"runs": 6000, "budget_s": 540},
